@@ -70,6 +70,12 @@ def _binder_iter(fa: FA, name_node):
                     return g.iter
         if isinstance(n, (ast.For, ast.AsyncFor)) and name_node.id in [x.id for x in ast.walk(n.target) if isinstance(x, ast.Name)]:
             return n.iter
+        if isinstance(n, ast.Lambda) and name_node.id in [a.arg for a in n.args.args]:
+            # filter(lambda k: ..., iterable) / map(...)
+            call = fa.pm.get(n)
+            if isinstance(call, ast.Call) and isinstance(call.func, ast.Name) and call.func.id in ("filter", "map") and len(call.args) == 2 and call.args[0] is n:
+                return call.args[1]
+            return None
     return None
 
 
@@ -263,7 +269,15 @@ def check_delete_enumerates_versions(ck, R):
     links = [c for c in dv.calls("_delete_non_versioned_link")] + [c for c in dv.calls("_delete_all_versions_for_key")]
     # once the key was found to exist, every path to the exit deletes the link (directly or in the per-key helper): the only
     # edges that may by-pass the deletion are those that say "does not exist" (guard clause or nested, either polarity)
-    okl = bool(links) and dv.cfg.exit not in dv.cfg.reach([dv.cfg.entry], removed=dv.nodes_all(links), edge_ok=branch_filter(dv, lambda t, p: not p and ".exists()" in t))
+    # (a local that only ever holds an existence answer -- `present = a.exists()` ... `if not present: present = b.exists()` -- says the same)
+    flags = {}
+    for st in dv.stmts(ast.Assign):
+        for t in st.targets:
+            if isinstance(t, ast.Name):
+                flags.setdefault(t.id, []).append(".exists()" in A.norm(st.value))
+    flags = {n_ for n_, vs in flags.items() if all(vs)}
+    okl = bool(links) and dv.cfg.exit not in dv.cfg.reach([dv.cfg.entry], removed=dv.nodes_all(links),
+                                                            edge_ok=branch_filter(dv, lambda t, p: not p and (".exists()" in t or t in flags)))
     ck.ob(R, dv.key(None, "link-removed"), okl, "the link of a deleted key is removed on every path" if okl else
           "delete_all_versions can finish without removing the key's link", dv.where())
 
@@ -356,6 +370,12 @@ def check_forget_scope(ck, cm: CacheModel):
                     idx = [A.norm(t_) for t_ in st_.targets[0].elts].index(nm.id) if nm.id in [A.norm(t_) for t_ in st_.targets[0].elts] else None
                     if idx == (0 if fn_name == "dirname" else 1):
                         return safe_expand(f2, st_.value.args[0], st_)
+                # `d, b = P.rsplit('/', 1)`: the same two parts for a path that has a '/' (a call path always has)
+                if isinstance(st_, ast.Assign) and len(st_.targets) == 1 and isinstance(st_.targets[0], ast.Tuple) and len(st_.targets[0].elts) == 2 \
+                        and isinstance(st_.value, ast.Call) and A.call_attr(st_.value) == "rsplit" and [A.norm(a_) for a_ in st_.value.args] == ["'/'", "1"]:
+                    names_ = [A.norm(t_) for t_ in st_.targets[0].elts]
+                    if nm.id in names_ and names_.index(nm.id) == (0 if fn_name == "dirname" else 1):
+                        return safe_expand(f2, A.call_recv(st_.value), st_)
         return None
 
     dn, bn = inner(d_dir, "dirname"), inner(d_pre, "basename")
@@ -447,13 +467,22 @@ def check_forget_scope(ck, cm: CacheModel):
     # function as well, selected by the '<qualified name>/' prefix (terminated, so that f#1 does not take f#10 along)
     for tb in ("metadata", "result"):
         # prefix tests on keys that come out of self.<tb> (the tested variable is bound by a comprehension or a loop over it)
-        sel = [c for c in fF.calls("startswith") if _binder_iter(fF, A.call_recv(c)) is not None and fF.nodes(c)
-               and "attr:self." + tb in fF.deps(_binder_iter(fF, A.call_recv(c)))]
+        def _deps_at(e, at):
+            """dependency atoms of `e`, evaluated at the statement that contains `at` (works inside a lambda body as well)"""
+            st_ = fF.stmt_of(at) or at
+            out_ = set()
+            for i_ in fF.nodes(st_):
+                out_ |= fF.df.deps(e, i_)
+            return out_
+        sw_all = list(fF.calls("startswith")) + [c_ for lam in A.walk_body(fF.node) if isinstance(lam, ast.Lambda)
+                                                 for c_ in ast.walk(lam.body) if isinstance(c_, ast.Call) and A.call_attr(c_) == "startswith"]
+        sel = [c for c in sw_all if _binder_iter(fF, A.call_recv(c)) is not None
+               and "attr:self." + tb in _deps_at(_binder_iter(fF, A.call_recv(c)), c)]
         def _is_tb(e, at, tb=tb):
             return A.norm(e) == "self." + tb or (bool(fF.nodes(at)) and "attr:self." + tb in fF.deps(e))
         rem = [n for n in A.walk_body(fF.node) if (isinstance(n, ast.Delete) and any(isinstance(t, ast.Subscript) and _is_tb(t.value, n) for t in n.targets))
                or (isinstance(n, ast.Call) and A.call_attr(n) == "pop" and _is_tb(A.call_recv(n), n))]
-        term = bool(sel) and all(c.args and ("const:'/'" in fF.deps(c.args[0])) and "qualified_name" in {d.split(".")[-1] for d in fF.deps(c.args[0]) if d.startswith("attr:")} for c in sel)
+        term = bool(sel) and all(c.args and ("const:'/'" in _deps_at(c.args[0], c)) and "qualified_name" in {d.split(".")[-1] for d in _deps_at(c.args[0], c) if d.startswith("attr:")} for c in sel)
         okT = bool(sel) and bool(rem) and term
         if tb == "result" and not sel:
             continue  # results are removed per memento by forget_call; a prefix sweep is optional
